@@ -533,7 +533,13 @@ def data_image(d):
         if v[0] == 'int':
             img += (v[1] % (1 << (8 * sz))).to_bytes(sz, 'little')
         elif v[0] == 'flt':
-            img += struct.pack('<f' if ty == 's' else '<d', v[1]) if ty in 'sd' else b'\0' * sz
+            # QBE stores the bit pattern of the literal in ITS precision (s_ / d_) and emits the low
+            # bytes of it for the item's width, whatever the item type letter is
+            try:
+                bits = struct.pack('<f', v[1]) if v[2] == 's' else struct.pack('<d', v[1])
+            except OverflowError:
+                bits = struct.pack('<f', float('inf') if v[1] > 0 else float('-inf'))
+            img += (bits + b'\0' * 8)[:sz]
         elif v[0] == 'str':
             img += v[1]
         elif v[0] == 'sym':
@@ -577,7 +583,7 @@ def type_layout(m, name, _depth=0):
             s, a, lv = struct_layout(alt)
             size, al = max(size, s), max(al, a)
             leaves += lv
-    if td.align is not None:
-        al = td.align
+    if td.align is not None and td.align > al:
+        al = td.align  # QBE: an explicit alignment can only raise the natural one (parsefields)
     size = (size + al - 1) // al * al
     return size, al, leaves
